@@ -41,6 +41,9 @@ Definition f_ltb (a b : fl) : bool := f_num a * f_den b <? f_num b * f_den a.
 Definition f_trunc (a : fl) : Z := f_num a / f_den a.
 
 Definition f_half : fl := mkfl 1 (-1).
+Definition f_mul (a b : fl) : fl := rnd53 (f_num a * f_num b) (f_den a * f_den b).
+(* Go int(math.Round(x)), x >= 0: nearest integer, halves away from zero (exact) *)
+Definition f_round (a : fl) : Z := (2 * f_num a + f_den a) / (2 * f_den a).
 
 (* the value in 1/1000 units, rounded to nearest, ties to even: the digits "%.3f" prints *)
 Definition f_millis (a : fl) : Z :=
